@@ -34,6 +34,8 @@ type vLNode struct {
 	mode   os.FileMode
 	mtime  time.Time
 	atime  time.Time
+	uid    int // owner (0 unless a harness sets it; Chown follows links like chown(2))
+	gid    int
 }
 
 type vLinkFs struct {
@@ -443,6 +445,7 @@ func (fs *vLinkFs) Chown(name string, uid, gid int) error {
 	if n == nil {
 		return pathErr("chown", name, syscall.ENOENT)
 	}
+	n.uid, n.gid = uid, gid
 	return nil
 }
 
@@ -666,6 +669,8 @@ type vLEntry struct {
 	kind   int
 	data   string
 	target string
+	uid    int
+	gid    int
 }
 
 func (fs *vLinkFs) snapshot() []vLEntry {
@@ -673,7 +678,7 @@ func (fs *vLinkFs) snapshot() []vLEntry {
 	defer fs.mu.Unlock()
 	var out []vLEntry
 	for p, n := range fs.nodes {
-		out = append(out, vLEntry{path: p, kind: n.kind, data: string(n.data), target: n.target})
+		out = append(out, vLEntry{path: p, kind: n.kind, data: string(n.data), target: n.target, uid: n.uid, gid: n.gid})
 	}
 	sort.Slice(out, func(a, b int) bool { return out[a].path < out[b].path })
 	return out
